@@ -445,3 +445,23 @@ def pattern_assignments(n, nlet=3):
 
 
 SIZES = [6, 7, 8, 13, 16, 33]
+
+
+# ---------------------------------------------------------------------------
+# integer-valued data (exactly representable in int32) for the "same values, integer-typed arrays" checks
+def int_cons_lattice(kind):
+    """list of conservative data arrays (one array per equation) with integer values, admissible for the model kind"""
+    if kind in ("euler1d", "nozzle"):
+        rows = [(r, m, E) for r in (1, 2, 5) for m in (-4, -1, 0, 1, 3) for E in (12, 40)]
+    elif kind == "shallowwater":
+        rows = [(h, q) for h in (1, 2, 5, 40) for q in (-9, -3, 0, 1, 7)]
+    else:
+        rows = [(v,) for v in (-7, -5, -2, -1, 1, 2, 3, 6, 9)]
+    a = np.array(rows, float).T
+    return [a[i].copy() for i in range(a.shape[0])]
+
+
+def same_bits(xs, ys):
+    xs = xs if isinstance(xs, (list, tuple)) else [xs]
+    ys = ys if isinstance(ys, (list, tuple)) else [ys]
+    return len(xs) == len(ys) and all(np.shape(x) == np.shape(y) and np.array_equal(np.asarray(x, float), np.asarray(y, float), equal_nan=True) for x, y in zip(xs, ys))
